@@ -6,6 +6,7 @@ import (
 	"errors"
 
 	gencoding "github.com/gdamore/encoding"
+	"golang.org/x/text/transform"
 )
 
 // C17 — legacy charsets: a cell is written as the charset's encoding of its rune
@@ -18,7 +19,7 @@ type h17Enc struct {
 	calls int
 	n     [2]int
 	fail  [2]bool
-	out   [2][3]byte
+	out   [2][4]byte
 }
 
 func (e *h17Enc) Reset() {}
@@ -29,6 +30,10 @@ func (e *h17Enc) Transform(dst, src []byte, atEOF bool) (int, int, error) {
 		k = 1
 	}
 	e.calls++
+	if len(dst) < e.n[k] {
+		// the Transformer contract: a destination that is too small is reported, never overrun
+		return 0, 0, transform.ErrShortDst
+	}
 	for i := 0; i < e.n[k]; i++ {
 		dst[i] = e.out[k][i]
 	}
@@ -42,9 +47,9 @@ func (e *h17Enc) Transform(dst, src []byte, atEOF bool) (int, int, error) {
 func h17Stub() *h17Enc {
 	e := &h17Enc{}
 	for k := 0; k < 2; k++ {
-		e.n[k] = vsymChoice("enc.n", 4) // 0..3 output bytes
+		e.n[k] = vsymChoice("enc.n", 5) // 0..4 output bytes (legacy encodings can be longer than UTF-8)
 		e.fail[k] = vsymBool("enc.fail")
-		for i := 0; i < 3; i++ {
+		for i := 0; i < 4; i++ {
 			e.out[k][i] = vsymByte("enc.b")
 		}
 	}
